@@ -50,6 +50,9 @@ def to_window(tb, iv):
     return (a, b)
 
 
+MASKED_INPUT = False  # set per run: the numpy front end was handed masked arrays
+
+
 def regroup(res):
     """ContextResults of the same (stream, rows) merged into one carrying several CallResults -- the general
     shape of the ContextResult type (no stream front end produces it)"""
@@ -90,7 +93,7 @@ def judge_collected(ctx, label, tb, contexts, res, wb, flags_only=False):
         mask = tb.rows_in(c["window"])
         for sid, tests in c["streams"].items():
             for module, test, kwargs in tests:
-                fl = c05.direct(module, test, kwargs, tb, mask, sid)
+                fl = c05.direct(module, test, kwargs, tb, mask, sid, masked_input=MASKED_INPUT)
                 if fl is None:
                     continue  # cannot run: contributes nothing
                 e = exp.setdefault((sid, module, test), [None] * tb.n)
@@ -120,8 +123,8 @@ def judge_collected(ctx, label, tb, contexts, res, wb, flags_only=False):
             for name, src, have in (("data", tb.data[cr.stream_id], True), ("tinp", np.array(tb.secs), tb.with_time),
                                     ("zinp", tb.z, tb.with_z), ("lat", tb.lat, tb.with_pos), ("lon", tb.lon, tb.with_pos)):
                 arr = getattr(cr, name)
-                if not have:
-                    continue
+                if not have or (name == "data" and MASKED_INPUT):
+                    continue  # (a masked source row stays masked in the collected data)
                 try:
                     a = np.ma.getdata(arr)
                     if name == "tinp":
@@ -167,7 +170,8 @@ def run(ctx) -> None:
     ctx.require("c06.order_groups", 100)
     P.install_probes()
     scratch = P.Scratch()
-    fes = [("pandas", {}), ("numpy-dict", {}), ("xarray-ds", {}), ("pandas", {"index": "shifted"}), ("netcdf-ds", {})]
+    fes = [("pandas", {}), ("numpy-dict", {}), ("xarray-ds", {}), ("pandas", {"index": "shifted"}), ("netcdf-ds", {}),
+           ("numpy-dict", {"masked_input": True})]
     try:
         i = 0
         for n in range(1, ctx.pick(5, 7) + 1):
@@ -198,7 +202,9 @@ def run(ctx) -> None:
                         sd[s] = tests
                     contexts.append({"window": to_window(tb, iv), "streams": sd})
                 fe, opts = fes[i % len(fes)]
-                label = fe + ("" if not opts else ":shifted")
+                global MASKED_INPUT
+                MASKED_INPUT = bool(opts.get("masked_input"))
+                label = fe + ("" if not opts else ":" + ",".join(f"{k}={v}" for k, v in sorted(opts.items())))
                 outcomes = []
                 orders = list(itertools.permutations(range(len(contexts))))
                 for oi, order in enumerate(orders):
